@@ -555,6 +555,9 @@ class Eval:
                     continue
                 pat = n["pat"]
                 tp = [x for x in toks(pat) if x not in ("mut", "ref")]
+                if ":" in tp and "{" not in tp and "(" not in tp[:tp.index(":")]:
+                    tp = tp[:tp.index(":")]          # `let name: Type = …`
+                    pat = " ".join(tp)
                 if n.get("skel"):
                     nf, _ = self.walk(n["skel"], env, benv, z3.BoolVal(True))
                     val = "der{" + ";".join(render(x, flat=True) for x in nf) + "}"
